@@ -1150,7 +1150,7 @@ def r_drainlit(f):
         ok = names == ["size_hint"]
         R.inst(b2.ident, "delegates to the embedded cursor's size_hint", ok)
         if not ok:
-            R.fail(b2.ident, "size_hint", "DrainCol::size_hint calls %s" % names, b2.where())
+            R.fail(b2.ident, "size_hint", "DrainCol::size_hint does not report the embedded column cursor's own size_hint (it calls %s): the drain's exact length is no longer the conforming cursor's (R-CURSOR), it rests on bookkeeping this rule does not follow" % (names or "nothing"), b2.where())
     return R, n
 
 
